@@ -560,6 +560,9 @@ func (e *Env) lookupRoot(name string) (SV, bool) {
 			if sv, ok := e.frame.lookupEnclosingLoopPhi(strings.TrimPrefix(name, "phi:")); ok {
 				return sv, true
 			}
+			if sv, ok := e.frame.lookupOnlyLoopPhi(strings.TrimPrefix(name, "phi:")); ok {
+				return sv, true
+			}
 			if sv, ok := e.frame.lookupLocal(strings.TrimPrefix(name, "phi:")); ok {
 				return sv, true
 			}
@@ -961,6 +964,31 @@ func (f *Frame) lookupEnclosingLoopPhi(name string) (SV, bool) {
 			}
 		}
 		return f.vals[best], true
+	}
+	return SV{}, false
+}
+
+// lookupOnlyLoopPhi: outside every loop (postconditions), phi:NAME is the loop-carried variable NAME when exactly one
+// loop of the function carries a variable of that name (its value at the head of the last iteration entered).
+func (f *Frame) lookupOnlyLoopPhi(name string) (SV, bool) {
+	var found ssa.Value
+	n := 0
+	for h := range f.loops {
+		for _, ins := range h.Instrs {
+			phi, ok := ins.(*ssa.Phi)
+			if !ok {
+				break
+			}
+			if phi.Comment == name {
+				if _, has := f.vals[phi]; has {
+					found = phi
+					n++
+				}
+			}
+		}
+	}
+	if n == 1 {
+		return f.vals[found], true
 	}
 	return SV{}, false
 }
